@@ -150,8 +150,9 @@ def validate(run, segments, name, known):
             {k: ev.get(k) for k in ("k", "dec", "err", "vc", "hdr", "tried", "delivered", "vcpass", "first", "resp")
              if k in ev}))
     elif ev.get("op") == "race":
-        what = "unsynchronised access to the subscriber table: read in %s, write in %s (%s)" % (
-            ev.get("rd"), ev.get("wr"), ev.get("fatal", "race detector report"))
+        what = "unsynchronised access to the subscriber table (%s map): %s in %s, write in %s, %s (%s)" % (
+            ev.get("tbl"), "write" if ev.get("ww") else "read", ev.get("rd"), ev.get("wr"),
+            " / ".join(ev.get("lines", [])), ev.get("fatal", "race detector report"))
     else:
         what = ("%s trace %s: no interleaving of the specification explains event %s %s (events of the round: %d)"
                 % (kind, ltr, ev.get("i"), json.dumps({k: v for k, v in ev.items() if k not in ("tr", "i")}), len(prog)))
@@ -161,6 +162,30 @@ def validate(run, segments, name, known):
                          "trace_module": "Trace_P2P.tla"})
     os.remove(trace)
     return False
+
+
+def binding_selftest(run, trace):
+    """Anti-vacuity (DESIGN section 6): a recorded trace with one delivery removed, and one with a delivery
+    attributed to another subscriber object, must both be rejected by the trace specification."""
+    evs = vp.read_ndjson(trace)
+    progs = sorted({e["tr"] for e in evs if e.get("op") == "dlv"})[:12]
+    evs = [e for e in evs if e.get("tr") in progs]
+    idx = [i for i, e in enumerate(evs) if e.get("op") == "dlv"]
+    if not idx:
+        raise vp.Undecided("binding self-test: no delivery recorded")
+    k = idx[len(idx) // 2]
+    removed = evs[:k] + evs[k + 1:]
+    swapped = [dict(e) for e in evs]
+    swapped[k]["s"] = dict(swapped[k]["s"], k=3 - swapped[k]["s"]["k"])
+    for name, t in (("removed", removed), ("swapped", swapped)):
+        f = os.path.join(run.work, "selftest_%s.ndjson" % name)
+        vp.write_ndjson(f, t)
+        res = run.tlc_validate("Trace_P2P.tla", "Trace_P2P.cfg", f, name="selftest_val",
+                               consts={k: "TRUE" for k in KF_DESC})
+        os.remove(f)
+        if res["hw"] == res["len"] + 1:
+            raise vp.Undecided("binding self-test: a trace with a %s delivery was accepted by Trace_P2P" % name)
+    run.cov["binding_selftest"] = "tampered traces (delivery removed / attributed to another subscriber) rejected"
 
 
 def concat(run, name, files):
@@ -173,8 +198,22 @@ def concat(run, name, files):
 
 
 # ------------------------------------------------------------------------------------------------ race sensor
+def table_of(path, line):
+    """Which map of the subscriber table a source line of dispatcher.go touches: the inner map (set of
+    subscribers of one type: d.mc[t][sub], range d.mc[t], delete(d.mc[t], sub)) or only the outer one."""
+    try:
+        txt = open(path).read().splitlines()[line - 1]
+    except Exception:
+        raise vp.Undecided("cannot read %s:%s named by a race report" % (path, line))
+    if "d.mc" not in txt:
+        return "other"
+    if re.search(r"d\.mc\[[^\]]*\]\s*\[", txt) or "range d.mc[" in txt or "delete(d.mc[" in txt:
+        return "inner"
+    return "outer"
+
+
 def parse_race_reports(text):
-    """Go race detector reports -> list of {rd, wr, ww, lines} for access pairs inside p2p.(*dispatcher);
+    """Go race detector reports -> list of {rd, wr, tbl, ww, lines} for access pairs inside p2p.(*dispatcher);
     everything else is returned as diagnostics."""
     pairs, other = [], []
     for block in text.split("WARNING: DATA RACE")[1:]:
@@ -182,16 +221,18 @@ def parse_race_reports(text):
         stanzas = re.findall(r"^((?:Previous )?(?:[Rr]ead|[Ww]rite)) at .*?\n((?:  .*\n|      .*\n)+)", block, re.M)
         acc = []
         for kind, body in stanzas[:2]:
-            fn = re.search(r"p2p\.\(\*dispatcher\)\.(\w+)", body)
-            ln = re.search(r"(dispatcher\.go:\d+)", body)
-            acc.append(("write" if "rite" in kind else "read", fn.group(1) if fn else None, ln.group(1) if ln else ""))
-        if len(acc) == 2 and acc[0][1] and acc[1][1]:
+            fn = re.search(r"p2p\.\(\*dispatcher\)\.(\w+)[^\n]*\n\s+(\S+dispatcher\.go):(\d+)", body)
+            if fn:
+                acc.append(("write" if "rite" in kind else "read", fn.group(1),
+                            "dispatcher.go:" + fn.group(3), table_of(fn.group(2), int(fn.group(3)))))
+        if len(acc) == 2:
+            tbl = acc[0][3] if acc[0][3] == acc[1][3] else "mixed"
             rd = [a for a in acc if a[0] == "read"]
             wr = [a for a in acc if a[0] == "write"]
             if rd and wr:
-                pairs.append({"rd": rd[0][1], "wr": wr[0][1], "ww": False, "lines": [rd[0][2], wr[0][2]]})
+                pairs.append({"rd": rd[0][1], "wr": wr[0][1], "tbl": tbl, "ww": False, "lines": [rd[0][2], wr[0][2]]})
             else:
-                pairs.append({"rd": acc[0][1], "wr": acc[1][1], "ww": True, "lines": [acc[0][2], acc[1][2]]})
+                pairs.append({"rd": acc[0][1], "wr": acc[1][1], "tbl": tbl, "ww": True, "lines": [acc[0][2], acc[1][2]]})
         else:
             other.append(block.strip()[:600])
     return pairs, other
@@ -210,7 +251,13 @@ def parse_map_fatal(stderr):
             fns.append((("running" in g.split("\n")[0]), fn.group(1)))
     rd = next((f for r, f in fns if f == "Dispatch"), None)
     wr = next((f for r, f in fns if f in ("Register", "UnRegister")), None)
-    return {"rd": rd or "unknown", "wr": wr or "unknown", "ww": False, "fatal": m.group(1)}
+    # the runtime only says that a map was read and written at once; which map is taken from the frames
+    tbl = "unknown"
+    lines = re.findall(r"p2p\.\(\*dispatcher\)\.\w+[^\n]*\n\s+(\S+dispatcher\.go):(\d+)", stderr)
+    if lines:
+        ts = {table_of(p, int(l)) for p, l in lines}
+        tbl = ts.pop() if len(ts) == 1 else "mixed"
+    return {"rd": rd or "unknown", "wr": wr or "unknown", "tbl": tbl, "ww": False, "fatal": m.group(1)}
 
 
 # ------------------------------------------------------------------------------------------------ the check
@@ -257,12 +304,12 @@ def conc_round(run, binary, behs, mode, reps, name, race_log=None):
         pairs, other = parse_race_reports(text + err)
         seen = set()
         for p in pairs:
-            key = (p["rd"], p["wr"], p["ww"])
+            key = (p["rd"], p["wr"], p["tbl"], p["ww"])
             if key not in seen:
                 seen.add(key)
                 extra.append(dict(p, op="race", tr=-1, i=len(extra)))
         run.cov.setdefault("race_reports", []).extend(
-            [{"read_in": p["rd"], "write_in": p["wr"], "lines": p["lines"]} for p in pairs][:6])
+            [{"read_in": p["rd"], "write_in": p["wr"], "table": p["tbl"], "lines": p["lines"]} for p in pairs][:6])
         if other:
             run.cov.setdefault("race_reports_elsewhere", []).extend(other[:3])
     sensor = None
@@ -334,6 +381,26 @@ def check(run):
         "model_dropped_repeats": sum(1 for e in rets if e["op"] == "disp" and e["res"] == "dropped"),
         "model_multi_deliveries": sum(1 for e in rets if e["op"] == "disp" and len(e["dl"]) >= 2),
     }
+    # measured on the real run: a Dispatch that delivered nothing although the same message had been delivered
+    # earlier in the same program (a dropped repeat), and dispatches that reached >= 2 subscribers
+    real_dropped = real_multi = 0
+    for _, t, _ in straces:
+        delivered, cur_m, cur_n, cur_tr = set(), None, 0, None
+        for e in vp.read_ndjson(t):
+            if e["op"] == "reset":
+                delivered, cur_m = set(), None
+            elif e["op"] == "inv" and e["call"] == "disp":
+                cur_m, cur_n = json.dumps(e["m"], sort_keys=True), 0
+            elif e["op"] == "dlv":
+                cur_n += 1
+            elif e["op"] == "ret" and cur_m is not None:
+                if cur_n == 0 and cur_m in delivered:
+                    real_dropped += 1
+                if cur_n >= 1:
+                    delivered.add(cur_m)
+                if cur_n >= 2:
+                    real_multi += 1
+                cur_m = None
     lap("sequential_replay")
 
     # (4) dispatcher, 2-3 goroutines: steered through the callbacks, then free with seeded yields --------
@@ -353,6 +420,7 @@ def check(run):
     # the traces IDEAL is expected to explain go first, in one TLC run; the universe with the colliding keys
     # and the sensor events (explained by known deviations only) in a second one
     if ok:
+        binding_selftest(run, straces[0][1])
         ok = validate(run, [straces[0], ("gated concurrent", gtrace, None), ("free concurrent", ftrace, None)],
                       "disp", known)
     lap("dispatcher_validation")
@@ -400,8 +468,9 @@ def check(run):
         "dispatch_programs": (tot.get("programs", 0), 100),
         "dispatches": (tot.get("dispatches", 0), 200),
         "deliveries": (tot.get("deliveries", 0), 100),
-        "dropped_repeats": (model["model_dropped_repeats"], 20),
-        "multi_subscriber_deliveries": (model["model_multi_deliveries"], 10),
+        "dropped_repeats": (real_dropped, 20),
+        "multi_subscriber_deliveries": (real_multi, 10),
+        "model_dropped_repeats": (model["model_dropped_repeats"], 20),
         "concurrent_rounds": (tot.get("gated_rounds", 0) + tot.get("free_rounds", 0), 100),
         "overlapping_calls": (tot.get("gated_overlapping_calls", 0) + tot.get("free_overlapping_calls", 0), 200),
         "concurrent_deliveries": (tot.get("conc_deliveries", 0), 20),
@@ -411,6 +480,7 @@ def check(run):
 def replay(run, known):
     """./check C20 --replay FILE: re-execute the recorded case / behaviour on the current tree and re-validate."""
     rp = json.load(open(run.replay))
+    run.seed = int(rp.get("seed", run.seed))
     binary = build(run)
     kind = rp.get("kind", "")
     ev = rp.get("first_unexplained_event") or {}
